@@ -257,7 +257,8 @@ claim(
     "host's stream table has no entry for it, a graceful close puts exactly one FIN on the link and a shutdown followed by a drop "
     "no second one.",
     "The async bodies of TcpStream::connect / TcpListener::accept (one-shot receive under an executor, address mirroring) are not "
-    "executed; dropping a stream with unread data towards a REMOTE peer had no verdict in 15 min (io::Error drop glue in the sibling "
+    "executed (one poll of the real `accept()` future on a two-host World with two queued connectors had no verdict in 20 min; the "
+    "accept loop's skipping of dead connectors is emulated by the harness on the real queue instead); dropping a stream with unread data towards a REMOTE peer had no verdict in 15 min (io::Error drop glue in the sibling "
     "half's drop) and is covered only on the same-host paths.",
     ["host::Tcp::{bind, unbind, accept, receive_from_network, new_stream, stream_count, close_stream_half, reset_stream, is_port_assigned}",
      "host::matches", "net::SocketPair::new", "net::tcp::stream::{TcpStream::new, <ReadHalf as Drop>::drop, <WriteHalf as Drop>::drop, "
